@@ -7,13 +7,13 @@ res=${2:-/tmp/benign_results.txt}
 cd /verif
 out=$(mktemp -d)
 lane=0
-for d in $src/*/; do n=$(basename $d); [ -f $d/patch.diff ] && echo $n >> $out/lane$((lane % 3)) && lane=$((lane+1)); done
-for l in 0 1 2; do
+for d in $src/*/; do n=$(basename $d); [ -f $d/patch.diff ] && echo $n >> $out/lane$((lane % ${LANES:-3})) && lane=$((lane+1)); done
+for l in $(seq 0 $((${LANES:-3}-1))); do
   ( for n in $(cat $out/lane$l 2>/dev/null); do
       s=$(mktemp -d /tmp/verif-benign-XXXX)
       cp -r /repo/playback $s/
       if ! (cd $s && patch -p1 -s --no-backup-if-mismatch < $src/$n/patch.diff > $out/patch_$n.log 2>&1); then echo "$n PATCH-DOES-NOT-APPLY" >> $out/res_$l.txt; rm -rf $s; continue; fi
-      for p in C01 C02 C03 C04 C05 C06 C07 C08 C09 C10 C11 C12 C13 C14 C15 C16 C17 C18 C19 C20; do
+      for p in ${CHECKS:-C01 C02 C03 C04 C05 C06 C07 C08 C09 C10 C11 C12 C13 C14 C15 C16 C17 C18 C19 C20}; do
         o=$(PLAYBACK_SRC=$s timeout 900 ./check $p --tier quick --no-evidence 2>&1); rc=$?
         echo "$n $p rc=$rc" >> $out/res_$l.txt
         if [ $rc -ne 0 ]; then echo "=== $n $p rc=$rc" >> $out/fail_$l.txt; echo "$o" | grep -v "^WARN" | tail -25 >> $out/fail_$l.txt; fi
